@@ -125,14 +125,26 @@ func parseStacks(b []byte) map[int64]ginfo {
 	return out
 }
 
-// internalWait: the goroutine is blocked in the engine's follower wait (the select on the
-// leader's channel and the follower's own context). Only a close by the leader or the
-// follower's own cancellation wakes it, and both are harness actions.
+// internalWait: the goroutine is blocked inside the engine on something only another
+// participant or the harness can provide: the follower wait (select on the leader's channel
+// and the follower's own context in GetOrCreate / loadByContext) or the queue for a
+// MaxConcurrency slot (receive on the resolver's semaphore). It is recognised as "select or
+// channel receive with the top frame in package resolve", so it also fits code that waits for
+// the slot differently. A close by the leader, a slot released by a returning participant or
+// the waiter's own cancellation wakes it, and all of those follow from harness actions.
 func internalWait(g ginfo) bool {
-	if !strings.HasPrefix(g.state, "select") {
+	if !strings.HasPrefix(g.state, "select") && !strings.HasPrefix(g.state, "chan receive") {
 		return false
 	}
-	return strings.Contains(g.top, "(*InboundRequestSingleFlight).GetOrCreate") || strings.Contains(g.top, "(*Loader).loadByContext")
+	return strings.Contains(g.top, "/pkg/engine/resolve.")
+}
+
+// waitKind names the internal wait for labels and messages.
+func waitKind(g ginfo) string {
+	if strings.Contains(g.top, "GetOrCreate") || strings.Contains(g.top, "loadByContext") {
+		return "waiting-for-leader"
+	}
+	return "queued-for-slot"
 }
 
 // ---- scheduler ------------------------------------------------------------------------------
@@ -160,6 +172,9 @@ type pstate struct {
 	arrived   map[string]bool
 	parkedLog []string
 
+	waitWhere string // last confirmed internal wait: waiting-for-leader | queued-for-slot
+	queued    bool   // was seen queued for a MaxConcurrency slot
+
 	cancelled           bool
 	cancelWhere         string
 	cancelBeforeProduct bool
@@ -177,18 +192,25 @@ type pstate struct {
 }
 
 type pwriter struct {
-	p      *pstate
-	s      *sched
-	out    []byte
-	writes int
+	p       *pstate
+	s       *sched
+	fail    bool // this client's connection fails while the response is written to it
+	out     []byte
+	attempt []byte // what the engine tried to write (recorded also when the write fails)
+	writes  int
 }
 
 func (w *pwriter) Write(b []byte) (int, error) {
 	// park while holding the slice; the copy is taken after the resume, so anything that
 	// recycled/overwrote the memory behind b in between shows up in the recorded bytes
+	// (with fail set this is "the write hangs, then fails")
 	w.s.reach(w.p, ptWrite)
-	w.out = append(w.out, b...)
+	w.attempt = append(w.attempt, b...)
 	w.writes++
+	if w.fail {
+		return 0, &writeErr{w.p.id}
+	}
+	w.out = append(w.out, b...)
 	return len(b), nil
 }
 
@@ -400,7 +422,7 @@ func (s *sched) enabled() []action {
 		}
 	}
 	for _, p := range s.parts {
-		if p.spec.Script != scCancel || p.cancelled || p.finished {
+		if (p.spec.Script != scCancel && p.spec.Script != scDeadline) || p.cancelled || p.finished {
 			continue
 		}
 		if s.steer18 && !s.productFinal(p) && s.othersCouldShare(p) {
@@ -423,7 +445,7 @@ func (s *sched) enabled() []action {
 		}
 		out = append(out, action{"resume", p.id})
 	}
-	if s.poisoned < 1 {
+	if s.poisoned < 1 && s.c.MaxConc == 0 { // the poison requests need a slot each
 		for _, p := range s.parts {
 			if p.parkedAt == ptWrite {
 				out = append(out, action{"poison", -1})
@@ -463,10 +485,16 @@ func (s *sched) act(a action) {
 			p.cancelWhere = "before-arrival"
 		case p.parkedAt != "":
 			p.cancelWhere = "parked-at-" + shortOf(p.parkedAt)
+		case p.waitWhere != "":
+			p.cancelWhere = p.waitWhere
 		default:
 			p.cancelWhere = "waiting-for-leader"
 		}
-		s.logf("   p%d cancelled %s", p.id, p.cancelWhere)
+		if p.spec.Script == scDeadline {
+			s.logf("   p%d's own deadline expires %s", p.id, p.cancelWhere)
+		} else {
+			s.logf("   p%d cancelled %s", p.id, p.cancelWhere)
+		}
 		s.mu.Unlock()
 		p.cancel()
 	case "poison":
@@ -487,7 +515,8 @@ func (s *sched) launch(p *pstate) {
 				p.out.Panic = fmt.Sprint(v)
 				p.out.Stack = string(debug.Stack())
 			}
-			p.out.Out = string(p.wr.out)
+			p.out.Out = string(p.wr.attempt)
+			p.out.Delivered = string(p.wr.out)
 			s.mu.Lock()
 			p.finished = true
 			delete(s.byGID, gid)
@@ -634,6 +663,14 @@ func (s *sched) settle() settleResult {
 			}
 		}
 		if stable {
+			s.mu.Lock()
+			for _, p := range cand {
+				p.waitWhere = waitKind(gs[p.gid])
+				if p.waitWhere == "queued-for-slot" {
+					p.queued = true
+				}
+			}
+			s.mu.Unlock()
 			return settleResult{ok: true}
 		}
 		if time.Now().After(deadline) {
